@@ -18,6 +18,7 @@ from ..seams import (Stepper, Ambient, SimFS, install_fs, uninstall_fs,
 from . import c04
 
 ID = 'C12'
+USES_CHILD = True
 BUDGET = {
     'quick': {'runs': 2000, 'wall': 400, 'chunk': 20, 'shrink': 200},
     'thorough': {'runs': 120000, 'wall': 2700, 'chunk': 100, 'shrink': 400},
